@@ -312,6 +312,18 @@ impl Gen {
             }
             self.peers[1].next_tick = k * base;
         }
+        if cfg.family == "forge" {
+            // a stranger's handshake reply arrives before the genuine peer's first one
+            for dst in 1..=cfg.n_peers {
+                for src in 1..=cfg.n_peers {
+                    if src != dst && self.rng.chance(1, 2) {
+                        let magic = 1 + self.rng.below(3);
+                        let nonce = 7 + self.rng.below(100_000);
+                        self.emit(format!("inject {dst} {src} {magic} SyncReply {nonce}"));
+                    }
+                }
+            }
+        }
         if cfg.family == "glitch" {
             let sid = 1 + self.rng.below(2);
             let f = 20 + self.rng.below(150);
@@ -469,6 +481,13 @@ impl Gen {
                     // a wrong magic number is only recognisable once the handshake has fixed the
                     // peer's magic: before that the protocol cannot tell (outside C08's claim)
                     let pick = self.rng.below(9);
+                    // before the handshake is over a stranger's SyncReply (another session's magic,
+                    // a nonce nobody asked for) must be ignored like any other stray reply
+                    if !self.w.is_running(dst) && self.rng.chance(1, 2) {
+                        let magic = 1 + self.rng.below(3);
+                        let nonce = 7 + self.rng.below(100_000);
+                        self.emit(format!("inject {dst} {src} {magic} SyncReply {nonce}"));
+                    }
                     let pick = if pick == 0 && !self.w.is_running(dst) { 1 } else { pick };
                     let m = match pick {
                         0 => "magic".to_owned(),
